@@ -91,6 +91,7 @@ namespace pika {
         bool joinable() const noexcept
         {
             std::lock_guard<mutex_type> l(mtx_);
+            PIKA_VERIF_POST("jn.joinable", this, threads::detail::verif_self(), joinable_locked() ? 1 : 0);
             return joinable_locked();
         }
 
@@ -98,6 +99,7 @@ namespace pika {
         void detach()
         {
             std::lock_guard<mutex_type> l(mtx_);
+            PIKA_VERIF_POST("jn.detach", this, threads::detail::verif_self(), joinable_locked() ? 1 : 0);
             detach_locked();
         }
 
